@@ -113,13 +113,15 @@ class Hist(Stream):
     def __init__(self, kind):
         self.kind = kind
         self.name = kind
-        self.case_type = 'list sstep_obs' if kind == 'shared' else 'list dstep_obs'
-        self.check_fn = 'check_shared' if kind == 'shared' else 'check_disjoint'
+        self.case_type = 'list iso_obs' if kind == 'shared' else 'list diso_obs'
+        self.check_fn = 'check_iso_shared' if kind == 'shared' else 'check_iso_disjoint'
         self.rule = ('%s store: random interleaved histories (depth 8-30) over 3 graph ids x 5 node ids incl. imports '
                      'of graphs whose keys collide with stored internal ids, re-import, delete+re-import, clone, '
                      'malformed imports, merge scenarios, plus all histories of depth<=D over a 9-operation alphabet; '
                      'non-trivial = at least two graph ids hold nodes at some step and >=3 state-changing steps; '
                      'distinct by (history, observations)' % kind)
+
+    W = {'merge': 0, 'import': 9, 'clone': 6, 'del_graph': 5, 'import_direct': 3}
 
     EXH = [['add_node', 'g0', 'n0', 'c0', None], ['add_node', 'g1', 'n0', 'c1', {'p0': 'v0'}],
            ['import', 'g0', [[1, {'NodeID': 'n1', 'Class': 'c0'}], [2, {'NodeID': 'n2', 'Class': 'c0'}]],
@@ -134,11 +136,9 @@ class Hist(Stream):
         out = []
         for i in range(n):
             r = rng.random()
-            if r < 0.12:
-                out.append(sc.merge_scenario(rng, extra=rng.randrange(0, 8)))
-            else:
-                depth = rng.choice([8, 12, 16, 20, 25, 30])
-                out.append(sc.gen_history(rng, depth, identity_rate=0.03))
+            depth = rng.choice([8, 12, 16, 20, 25, 30])
+            # merge_nodes is not among the operations C04 quantifies over (C05 covers it)
+            out.append(sc.gen_history(rng, depth, identity_rate=0.03, weights=self.W))
         d = 2 if tier == 'quick' else 4
         alphabet = self.EXH[:9] if tier == 'quick' else self.EXH
         for k in range(1, d + 1):
@@ -165,7 +165,7 @@ class Hist(Stream):
         return sc.run_history(self.kind, case)
 
     def to_coq(self, case, obs):
-        return sc.q_steps(self.kind, case, obs)
+        return sc.q_iso_steps(self.kind, case, obs)
 
     def oracle(self, case, obs):
         try:
